@@ -1,9 +1,11 @@
 package work
 
 import (
+	"bytes"
 	"fmt"
 	"math/rand"
 	"reflect"
+	"strings"
 	"time"
 
 	hessian "github.com/vogo/gohessian"
@@ -342,6 +344,7 @@ func c03examples(c Case, env *Env, res *Result) {
 	cyc := &exList{Head: 1}
 	cyc.Tail = cyc
 	tm["Shr"], tm["Inner"] = reflect.TypeOf(zoo.Shr{}), reflect.TypeOf(zoo.Inner{})
+	tm["SlStr"], tm["SlInt64"] = reflect.TypeOf(zoo.SlStr{}), reflect.TypeOf(zoo.SlInt64{})
 	s12 := []int32{1, 2}
 	shr12 := &zoo.Shr{S1: s12, S2: s12}
 	pp := []*zoo.Inner{{A: 5, S: "i"}, {A: 6, S: "j"}}
@@ -374,6 +377,12 @@ func c03examples(c Case, env *Env, res *Result) {
 		{"untyped fixed-length list in a typed slice field, then a reference to it from a second field", "C x03 Shr x98 x02 s1 x02 s2 x02 m1 x02 m2 x02 p1 x02 p2 x02 pS x01 x x60 x7a x91 x92 Q x91 N N N N N N", shr12, nil},
 		{"untyped fixed-length list (x58) of objects in a typed slice field, then references from a field and an untyped position", "C x03 Shr x98 x02 s1 x02 s2 x02 m1 x02 m2 x02 p1 x02 p2 x02 pS x01 x x57 x60 N N N N x58 x92 C x05 Inner x92 x01 a x01 s x61 x95 x01 i x61 x96 x01 j Q x92 N N Q x92 Z", []interface{}{shrP, shrP.P1}, nil},
 		{"class definition in front of a string field value", "C x0b example.Car x92 x05 color x05 model x60 C x0d example.Color x91 x04 name x03 red x05 civic", &exCar{"red", "civic"}, []string{"choice:def.float"}},
+		{"untyped variable-length list with a null BEHIND a non-null element in a pointer-slice field", "C x03 Shr x98 x02 s1 x02 s2 x02 m1 x02 m2 x02 p1 x02 p2 x02 pS x01 x x60 N N N N x57 C x05 Inner x92 x01 a x01 s x61 x95 x01 i N x61 x96 x01 j N Z N N N", &zoo.Shr{P1: []*zoo.Inner{{A: 5, S: "i"}, nil, {A: 6, S: "j"}, nil}}, nil},
+		{"untyped fixed-length list (x7c) with nulls between ints and between strings in typed slice fields", "C x05 SlStr x91 x01 v x60 x7d x01 x N x01 y x00 N", &zoo.SlStr{V: []string{"x", "", "y", "", ""}}, nil},
+		{"untyped list (x58) of longs and ints into an int64 slice field", "C x07 SlInt64 x91 x01 v x60 x58 x93 xe1 x91 L x00 x00 x01 x00 x00 x00 x00 x00", &zoo.SlInt64{V: []int64{1, 1, 1 << 40}}, nil},
+		{"one final string chunk of 40000 characters (lengths are unsigned 16-bit)", "S x9c x40 " + strings.Repeat("a", 40000), strings.Repeat("a", 40000), nil},
+		{"a non-final string chunk of 65535 characters and a final one of 33000", "R xff xff " + strings.Repeat("b", 65535) + " S x80 xe8 " + strings.Repeat("c", 33000), strings.Repeat("b", 65535) + strings.Repeat("c", 33000), nil},
+		{"one final binary chunk of 40000 octets", "B x9c x40 " + strings.Repeat("d", 40000), bytes.Repeat([]byte("d"), 40000), nil},
 		{"class definition in front of an int field value", "C x0a LinkedList x92 x04 head x04 tail x60 C x0d example.Color x91 x04 name x91 N", &exList{Head: 1}, []string{"choice:def.float"}},
 	}
 	for i, e := range exs {
